@@ -137,7 +137,7 @@ pub fn work(ctx: &Ctx, rep: &mut Report, g1: (usize, usize), g2_k: (usize, usize
             if cmds.is_empty() {
                 cmds = vec!["x".to_string()];
             }
-            let sc = Scenario { cols: *c, rows: *r, commands: cmds };
+            let sc = Scenario { cols: *c, rows: *r, commands: cmds, mid: scenario_mid(prop) };
             let total = sc.count();
             let stride = if ctx.thorough { 1 } else { (total / 120_000).max(1) };
             let mut u = ctx.shard * stride + (ctx.seed as usize % stride);
